@@ -1,5 +1,18 @@
 import PcfgVerif.Model.Scorer
-/-! C13 — (theorems are added when proved) -/
+import PcfgVerif.Properties.ScoreCoreA
+import PcfgVerif.Properties.ScoreCoreB
+/-!
+# C13 — a non-zero score is a promise the guesser keeps
+
+`score` is the scorer (`PCFGPasswordScorer.parse` after the detectors), `parse` the detector pipeline
+shared with the trainer (C05), `productSpec` the guesses of a pre-terminal (C04), `probFold` the
+guesser's `_find_prob`.  `Agree` says that the guesser's grammar and the scorer's tables were loaded
+from the same files (shown for the loader models by `C13_same_files`, from the C07 round trips).
+`CaseInvAll` is the domain clause: the case mapping is one-to-one on the password's letters; where it
+is not (title-case digraphs, U+0130 …) the promise fails on the real code — the recorded known
+finding.  Probabilities are elements of a commutative monoid with absorbing zero (exact arithmetic);
+over doubles the two products differ by rounding only (the harness allows 1e-12 relative).
+-/
 namespace Pcfg.C13
 open Pcfg.Detect
 
@@ -17,5 +30,47 @@ theorem C13_email_web_zero {P : Type} (mul : P → P → P) (gt : P → P → Bo
     · have : p.websites.isEmpty = false := by cases hh : p.websites <;> simp_all
       simp [he, this]
     · simp [he]
+
+/-- the lists the scorer multiplies over are, category by category, the texts of the labelled
+sections of the parse (alpha words with their masks and their lower-casing in context) -/
+theorem C13_coherent (U : UEnv) (cfg : MWCfg) (t : MWTable) (pw : CPs) (hne : pw ≠ [])
+    (hl : LenPres U pw) : Coherent U pw (parse U cfg t pw) :=
+  parse_coherent U cfg t pw hne hl
+
+/-- **the promise**: a non-zero score is the probability (the guesser's own `_find_prob` product) of a
+pre-terminal of the guesser's grammar — a base structure with one group per position — among whose
+guesses is exactly the scored string -/
+theorem C13_promise {P : Type} (M : CMon P) (le : P → P → Bool) (gt : P → P → Bool) (limit : P)
+    (U : UEnv) (upper : Char → List Char) (cfg : MWCfg) (t : MWTable) (pw : CPs) (hne : pw ≠ [])
+    (hl : LenPres U pw) (hsc : ScalarCPs pw) (hcase : CaseInvAll U upper pw)
+    (g : ScoreG P) (V : GView P) (hag : Agree M.zero g V) (omenOk : Bool)
+    (hnz : (score M.mul gt M.one M.zero limit g (parse U cfg t pw) omenOk).prob ≠ M.zero) :
+    ∃ (reps : List String) (bp : P) (idx : List Nat), (reps, bp) ∈ V.bases ∧ idx.length = reps.length ∧
+      toStr pw ∈ productSpec upper V.E [] (mkPT reps idx) ∧
+      probFold ⟨le, M.mul⟩ bp (reps.map V.colP) idx =
+        (score M.mul gt M.one M.zero limit g (parse U cfg t pw) omenOk).prob :=
+  score_promise M le gt limit U upper cfg t pw hne hl hsc hcase g V hag omenOk
+    (parse_coherent U cfg t pw hne hl) hnz
+
+/-- the `Agree.term` link for the loader models: of one list file written by the trainer, the
+scorer's loader returns the (value, probability) pairs and the guesser's loader groups in which every
+value carries that same probability -/
+theorem C13_same_files {P : Type} [DecidableEq P] (parseP : CPs → Option P) (neg1 : P)
+    (items : List (CPs × CPs))
+    (hc : ∀ it ∈ items, CleanValue it.1 ∧ CleanProb it.2)
+    (hp : ∀ it ∈ items, ∃ p, parseP it.2 = some p ∧ p ≠ neg1)
+    (hd : (items.map (·.1)).Nodup) :
+    ∃ gs tbl, loadFromFile parseP (fun a b => decide (a = b)) neg1 (writeFile items) = some gs ∧
+      scorerLoad parseP (writeFile items) = some tbl ∧
+      ∀ v p, (tbl.find? (·.1 == v)).map (·.2) = some p →
+        ∃ (j : Nat) (grp : LGroup P), gs[j]? = some grp ∧ v ∈ grp.values ∧ grp.prob = p :=
+  agree_of_file parseP neg1 items hc hp hd
+
+/-- the score depends only on the string and the ruleset: `score` and `parse` are functions (no state,
+no randomness); recorded as the trivial statement it is -/
+theorem C13_deterministic {P : Type} (mul : P → P → P) (gt : P → P → Bool) (one zero limit : P)
+    (g : ScoreG P) (U : UEnv) (cfg : MWCfg) (t : MWTable) (pw pw' : CPs) (omenOk : Bool) (h : pw = pw') :
+    score mul gt one zero limit g (parse U cfg t pw) omenOk =
+    score mul gt one zero limit g (parse U cfg t pw') omenOk := by rw [h]
 
 end Pcfg.C13
